@@ -221,6 +221,43 @@ func ruleForEOF(w *World, r *RuleResult) {
 				}
 			}
 			good := lastV >= 0 && last == errBit
+			if !good {
+				// the decision may have been made by a helper of the machine: `if !f.skipLine() { return nil }`
+				for _, cd := range p.Conds {
+					a := cd.Atom
+					if a.Op != "call" || len(a.A) == 0 {
+						continue
+					}
+					callee := w.funcByKey(a.S)
+					if callee == nil || callee.Signature.Recv() == nil || callee.Signature.Results().Len() != 1 {
+						continue
+					}
+					cps, err := w.Paths(callee)
+					if err != nil {
+						continue
+					}
+					all, n := true, 0
+					for _, cp := range cps {
+						if cp.End != "ret" || len(cp.Ret) != 1 || !cp.Ret[0].IsConst() || (cp.Ret[0].C != 0) != cd.Val {
+							continue
+						}
+						n++
+						cs := lookSets(w, m, cp)
+						cl, clv := uint64(0), -1
+						for v, set := range cs {
+							if v > clv {
+								cl, clv = set, v
+							}
+						}
+						if !(clv >= 0 && cl == errBit) {
+							all = false
+						}
+					}
+					if n > 0 && all {
+						good = true
+					}
+				}
+			}
 			d.add(good, s.Name()+"/early-stop", w.Pos(s.Pos()), "the block is abandoned before expansion only on an error token", "the expanding state stops without expanding the block although the look-ahead is not an error token (e.g. the input ends right after 'rof' without a newline): the block is silently dropped")
 		}
 	}
@@ -332,6 +369,9 @@ func ruleScanTotal(w *World, r *RuleResult) {
 				}
 			}
 			atEnd := lastV >= 0 && last&^term == 0
+			if !atEnd {
+				atEnd = exitsOnlyAt(w, m, s, ps, p, term)
+			}
 			inv := uint64(1) << uint(tt["tokInvalid"])
 			good := setsErr || atEnd || word == "end" || (lastV >= 0 && last == inv)
 			key := s.Name() + "/stop"
@@ -349,3 +389,85 @@ func ruleScanTotal(w *World, r *RuleResult) {
 }
 
 var _ = ssa.NewProgram
+
+// exitsOnlyAt: path p leaves a loop because a loop-carried boolean b has a
+// certain value.  b enters the loop with the opposite (constant) value and every
+// back edge sets it to a test of the look-ahead type; p is therefore taken only
+// when that test came out so that the look-ahead lies in `allowed`.
+func exitsOnlyAt(w *World, m *machine, fn *ssa.Function, paths []*Path, p *Path, allowed uint64) bool {
+	all, _ := w.enumDomain(w.NamedType("tokenType"))
+	for ci := len(p.Conds) - 1; ci >= 0; ci-- {
+		cd := p.Conds[ci]
+		lv := cd.Atom
+		if lv.Op != "loopvar" {
+			continue
+		}
+		init, _, _ := loopVarInfo(w, fn, p, lv)
+		if init == nil {
+			// loopVarInfo wants a constant step; a boolean has none: read the entry value directly
+			phiIdx, n := -1, 0
+			for _, in := range fn.Blocks[int(lv.C)].Instrs {
+				if ph, ok := in.(*ssa.Phi); ok {
+					if ph.Comment == lv.S {
+						phiIdx = n
+					}
+					n++
+				}
+			}
+			for i := range p.Events {
+				if e := &p.Events[i]; e.Kind == "enterloop" && e.Res.C == lv.C && phiIdx >= 0 && phiIdx < len(e.Args) {
+					init = e.Args[phiIdx]
+				}
+			}
+			if init == nil || !init.IsConst() || (init.C != 0) == cd.Val {
+				return false // may leave before the first iteration
+			}
+			ok, n2 := true, 0
+			for _, q := range paths {
+				if q.End != "backedge" {
+					continue
+				}
+				be := q.Events[len(q.Events)-1]
+				if be.Res.C != lv.C || phiIdx >= len(be.Args) {
+					continue
+				}
+				n2++
+				t := be.Args[phiIdx]
+				pol := cd.Val
+				for t.Op == "not" {
+					t, pol = t.A[0], !pol
+				}
+				if t.IsConst() {
+					if (t.C != 0) == pol {
+						ok = false // this iteration always leaves: no evidence about the look-ahead
+					}
+					continue
+				}
+				set := all
+				if t.Op == "eq" && m.lookTyp(t.A[0]) && t.A[1].IsConst() {
+					bit := uint64(1) << uint(t.A[1].C)
+					if pol {
+						set = bit
+					} else {
+						set = all &^ bit
+					}
+				} else if t.Op == "in" && m.lookTyp(t.A[0]) {
+					mask := uint64(0)
+					for _, el := range t.A[1:] {
+						mask |= 1 << uint(el.C)
+					}
+					if pol {
+						set = mask
+					} else {
+						set = all &^ mask
+					}
+				}
+				if set&^allowed != 0 {
+					ok = false
+				}
+			}
+			return ok && n2 > 0
+		}
+	}
+	return false
+}
